@@ -177,7 +177,7 @@ def run(args):
                 for p in props:
                     t0 = time.time()
                     cdir = args.check_dir or VERIF
-                    rc, out = sh([os.path.join(cdir, "check"), p, "--tier", args.tier], cwd=cdir, timeout=7200, env={"VERIF_SEED": str(args.seed)})
+                    rc, out = sh([os.path.join(cdir, "check"), p, "--tier", args.tier], cwd=cdir, timeout=7200, env={"VERIF_SEED": str(args.seed), "VERIF_NO_SAVED": "1"})
                     fps = [l[len("[driver] violation "):][:400] for l in out.splitlines() if l.startswith("[driver] violation")]
                     verdict = {0: "MISSED", 1: "CAUGHT", 2: "INCONCLUSIVE"}.get(rc, f"rc={rc}")
                     meta.setdefault("checks", {})[f"{p}/{args.tier}" + (f"@{args.label}" if args.label else "")] = {
